@@ -38,7 +38,7 @@ func c20Profile() *sm.Profile {
 			{Kind: "updatebyid", Weight: 4}, {Kind: "update", Weight: 5}, {Kind: "updatefunc", Weight: 5}, {Kind: "delete", Weight: 4},
 			{Kind: "deletebyid", Weight: 3}, {Kind: "createindex", Weight: 8}, {Kind: "dropindex", Weight: 3}, {Kind: "hasindex", Weight: 3},
 			{Kind: "listindexes", Weight: 3}, {Kind: "find", Weight: 14}, {Kind: "count", Weight: 5}, {Kind: "exists", Weight: 4},
-			{Kind: "findfirst", Weight: 4}, {Kind: "foreach", Weight: 4}, {Kind: "findbyid", Weight: 3}, {Kind: "createbyquery", Weight: 3},
+			{Kind: "findfirst", Weight: 4}, {Kind: "foreach", Weight: 4}, {Kind: "iterate", Weight: 4}, {Kind: "findbyid", Weight: 3}, {Kind: "createbyquery", Weight: 3},
 			{Kind: "close", Weight: 2}, {Kind: "reopen", Weight: 1}, {Kind: "storm", Weight: 1}},
 	}
 }
@@ -193,7 +193,7 @@ func TestC20(t *testing.T) {
 }
 
 func testC20Histories(t *testing.T) {
-	(&smCheck{property: "C20", kind: "c20", rule: ruleC20, quick: 2500, thorough: 60000, stepsQ: 25, stepsT: 40,
+	(&smCheck{property: "C20", kind: "c20", rule: ruleC20, quick: 2500, thorough: 80000, stepsQ: 25, stepsT: 40,
 		backends: []string{run.Bbolt, run.BadgerMem},
 		profile:  func(rt *rapid.T) *sm.Profile { return c20Profile() },
 		session:  c20Session,
